@@ -242,6 +242,19 @@ def table_keys():
     return sorted(keys)
 
 
+class Odd(str):
+    """a str subclass whose printed forms are not its value (enum members with a str mixin behave like this)"""
+
+    def __str__(self):
+        return 'Odd.' + str.upper(self)
+
+    def __repr__(self):
+        return '<Odd %s>' % str.__repr__(self)
+
+    def __format__(self, spec):
+        return 'Odd'
+
+
 def run_shard(ctx, spec):
     core.import_athlib()
     mon = Monitor(ctx)
@@ -270,6 +283,15 @@ def run_shard(ctx, spec):
         mon.run_class(c, variants_of(c, mon, rnd))
         # padding is documented as removed
         attach.call(mon.N, '  ' + c + '\t')
+    # a string is a string: an enum member or another str subclass that prints differently is normalised by its value
+    for c in codes[::17]:
+        if mon.check(c) is not None:
+            want = attach.call(attach.original(mon.N), c)
+            got = attach.call(mon.N, Odd(c))
+            ctx.count('eval.str-subclass-argument')
+            if want.ok and (not got.ok or got.value != want.value):
+                ctx.violation('argument-type:str-subclass-normalised-differently', {'c': c, 'as': 'str subclass with its own __str__/__format__'},
+                              repr(want), repr(got))
     # refusal clause: near misses
     nm = 0
     for c in codes[:: (2 if ctx.tier == 'quick' else 1)]:
